@@ -16,6 +16,7 @@ import (
 	"bytes"
 	"fmt"
 	"os"
+	"os/signal"
 	"path/filepath"
 	"runtime"
 	"sort"
@@ -147,6 +148,11 @@ func main() {
 	if v := os.Getenv("C12_MAXK"); v != "" {
 		fmt.Sscan(v, &maxK)
 	}
+	// the files of this check are a few bytes long: no file this process writes
+	// may grow beyond 16 MiB, whatever the tree under test does (a write beyond
+	// that fails with EFBIG instead of filling the scratch file system)
+	signal.Ignore(syscall.SIGXFSZ)
+	_ = syscall.Setrlimit(syscall.RLIMIT_FSIZE, &syscall.Rlimit{Cur: 16 << 20, Max: 16 << 20})
 	base := "/dev/shm"
 	if _, err := os.Stat(base); err != nil {
 		base = ""
